@@ -159,7 +159,7 @@ def gen_other_data(rng, htype, spine, col):
 
 
 def gen_score(rng, spines=None, measures=None, allow_splits=True, kern_only=False, plain=False, comments=True, opening_barline=None,
-              final_barline=None, signatures_first=True, mid_signatures=False, non_ascii=True, unknown_types=False, chords=True, accidentals=True, compound=False):
+              final_barline=None, signatures_first=True, mid_signatures=False, non_ascii=True, unknown_types=False, chords=True, accidentals=True, compound=False, nested=True):
     """A well-formed score.  The live spine paths are tracked here (the reference model): every cell records the cell above it on
     its own path (both branches of a split -> the split cell; merged sub-spines -> the first join cell of their spine)."""
     nsp = spines if spines is not None else rng.choice([1, 1, 2, 2, 3, 4])
@@ -238,13 +238,35 @@ def gen_score(rng, spines=None, measures=None, allow_splits=True, kern_only=Fals
             barno += 1
         if mid_signatures and m > 0 and rng.random() < 0.5:
             signature_rows()
-        split_open = False
+        group = None        # (first column, number of sub-spines) of the split that is open in this measure
+        inner_first = None  # for a nested split: (column of the inner pair)
+
+        def ops_row(marks):
+            simple_row('ops', lambda sid, col: Cell('op', marks.get(col, '*'), sid, col))
+
+        def close_group():
+            nonlocal group, inner_first
+            t, n = group
+            if n == 2:
+                ops_row({t: '*v', t + 1: '*v'})
+            elif rng.random() < 0.5:
+                ops_row({t: '*v', t + 1: '*v', t + 2: '*v'})          # all three sub-spines at once
+            else:
+                i = inner_first
+                ops_row({i: '*v', i + 1: '*v'})                        # the inner pair first ...
+                ops_row({t: '*v', t + 1: '*v'})                        # ... then the outer pair
+            group, inner_first = None, None
         for d in range(rng.choice([1, 2, 3])):
-            if allow_splits and not split_open and rng.random() < 0.25:
+            if allow_splits and group is None and rng.random() < 0.25:
                 kcols = [c for c, (sid, _) in enumerate(live) if headers[sid] == '**kern']
                 target = rng.choice(kcols)
-                simple_row('ops', lambda sid, col: Cell('op', '*^' if col == target else '*', sid, col))
-                split_open = target
+                ops_row({target: '*^'})
+                group = (target, 2)
+            elif allow_splits and group is not None and group[1] == 2 and nested and rng.random() < 0.35:
+                t = group[0] + rng.choice([0, 1])                         # split the left or the right sub-spine again
+                ops_row({t: '*^'})
+                inner_first = t
+                group = (group[0], 3)
             if comments and rng.random() < 0.12:
                 simple_row('fcomment', lambda sid, col: Cell('fcomment', rng.choice(['!', '!a field comment', '!LO:TX']), sid, col))
             if comments and rng.random() < 0.08:
@@ -255,13 +277,10 @@ def gen_score(rng, spines=None, measures=None, allow_splits=True, kern_only=Fals
                     return gen_kern_data(rng, sid, col, plain, chords, accidentals, compound)
                 return gen_other_data(rng, headers[sid], sid, col)
             simple_row('data', data)
-            if split_open is not False and (rng.random() < 0.6 or d == 2):
-                t = split_open
-                simple_row('ops', lambda sid, col: Cell('op', '*v' if col in (t, t + 1) else '*', sid, col))
-                split_open = False
-        if split_open is not False:
-            t = split_open
-            simple_row('ops', lambda sid, col: Cell('op', '*v' if col in (t, t + 1) else '*', sid, col))
+            if group is not None and (rng.random() < 0.5 or d == 2):
+                close_group()
+        if group is not None:
+            close_group()
     if last_bar:
         bt = rng.choice(['', '=', '||', ':|!'])
         text = '=' + bt if bt != '=' else '=='
